@@ -71,6 +71,16 @@ AllInv == LET g == G IN
 SelectFirstMin(losses) == CHOOSE i \in 1..Len(losses) : (\A j \in 1..Len(losses) : losses[i] <= losses[j]) /\ (\A j \in 1..(i - 1) : losses[j] > losses[i])
 SelectionLaw == \A ls \in [1..3 -> 0..2] : LET i == SelectFirstMin(ls) IN \A j \in 1..3 : ls[i] <= ls[j]
 
+\* ---- extension beyond C09: user-supplied grid and grid_offset ----------------------------------
+\* a user-supplied grid is used verbatim (one predictor per column, in column order); grid_offset is added
+\* to every generated multiplier vector (component-wise on the constraint index), which preserves the
+\* number of grid points and their distinctness
+OffsetGrid(pts, off) == [i \in 1..Len(pts) |-> [d \in 1..Len(pts[i]) |-> pts[i][d] + off[d]]]
+OffsetLaw == \A off \in [1..dim -> 0..1] :
+                LET og == OffsetGrid(G.pts, off) IN
+                /\ Len(og) = size
+                /\ \A i, j \in 1..size : i # j => og[i] # og[j]
+
 Obs == [dim |-> dim, neg |-> [d \in 1..dim |-> neg[d]], force |-> force, size |-> size, nu |-> G.nu, pts |-> G.pts]
 EmitInv == Emit => PrintT(ToJson(Obs))
 =============================================================================
